@@ -372,6 +372,60 @@ def _enum(prog, q):
     raise AnalysisBroken("enumerator %s not found" % q)
 
 
+def rule_core_alignments(chk, prog):
+    """The constraints handed back to the caller are the CORE's; after planarisation only P is laid out."""
+    from ..rules.guards import path_condition, atoms
+    r = chk.rule("RETURNED-ALIGNMENTS", "doHOLA copies the core's SepMatrix into the caller's graph (core->setCorrespondingConstraints(G)); from the "
+                 "planarisation on only the planar graph P is laid out, and P keeps two core nodes aligned only where their connector was "
+                 "routed straight.  So between `planarise()` and the copy-back the core's alignments that P does not keep are freed: a loop "
+                 "over the core's edges that calls SepMatrix::free under a test of P's aligned sets; Tree::addConstraints aligns a parent "
+                 "with its middle child only when the layout actually put them in line", floor=2)
+    fn = prog.fn("dialect::doHOLA", sig="HolaOpts")
+    g = CFG(fn)
+    plan = [c for c in calls(fn) if c.get("cname") == "dialect::OrthoPlanariser::planarise"]
+    back = [c for c in calls(fn) if c.get("cname") == "dialect::Graph::setCorrespondingConstraints"]
+    frees = [c for c in calls(fn) if c.get("cname") == "dialect::SepMatrix::free"]
+    r.count()
+    bad = None
+    if not plan or not back:
+        raise AnalysisBroken("doHOLA: planarise / setCorrespondingConstraints not found")
+    good = []
+    for fcall in frees:
+        lp = [a for a in fn.ancestors(fcall) if a.get("k") in ("CXXForRangeStmt", "ForStmt")]
+        if not lp or "getEdgeLookup" not in norm(lp[0].get("range")) + norm(lp[0].get("init")):
+            continue
+        ats = " ".join(atoms(path_condition(fn, fcall, inline=True)))
+        if ("areHAligned" in ats or "areVAligned" in ats) and ("count" in ats or "find" in ats):
+            if g.search([g.after(plan[0]["id"])], targets=[fcall["id"]]) is not None and g.search([g.after(fcall["id"])], targets=[back[-1]["id"]]) is not None:
+                good.append(fcall)
+    if not good:
+        bad = "no step between planarise() and the copy-back frees the core alignments that the planar graph does not keep: they are returned " \
+              "to the caller although nothing maintained them"
+    (r.bad if bad else r.ok)("doHOLA", fn.loc(good[0]) if good else fn.loc(back[-1]), bad or "")
+    ft = prog.fn("dialect::Tree::addConstraints")
+    al = [c for c in calls(ft) if c.get("cname") == "dialect::SepMatrix::alignByEquatedCoord"]
+    r.count()
+    bad = None
+    central = []
+    for c in al:
+        lp = [a for a in ft.ancestors(c) if a.get("k") in ("CXXForRangeStmt", "ForStmt")]
+        if lp and any("getChildren" in norm(x.get("init")) for x in walk(lp[0].get("body") or {}) if x.get("k") == "VarDecl"):
+            central.append((c, lp[0]))
+    if not central:
+        raise AnalysisBroken("Tree::addConstraints: the parent / middle-child alignment was not found")
+    c, lp = central[0]
+    conts = [n for n in walk(lp["body"]) if n.get("k") == "ContinueStmt"]
+    guarded = False
+    for ct in conts:
+        ats = " ".join(atoms(path_condition(ft, ct, inline=True)))
+        if "getCentre" in ats:
+            guarded = True
+    if not guarded:
+        bad = "the parent is aligned with its middle child whenever the number of children is odd, whether or not the symmetric layout put that " \
+              "child in line with the parent"
+    (r.bad if bad else r.ok)("Tree::addConstraints (central child)", ft.loc(c), bad or "")
+
+
 def run(chk):
     prog = chk.load()
     chk.guard(rule_padding, chk, prog)
@@ -381,6 +435,7 @@ def run(chk):
     chk.guard(rule_rotation, chk, prog)
     chk.guard(rule_tree_flip, chk, prog)
     chk.guard(rule_merge_join, chk, prog)
+    chk.guard(rule_core_alignments, chk, prog)
     from ..rules import mirrors
     r_m = chk.rule("MIRROR", "the x / y twins of dialect::Node (coordinate write-back from the solver rectangle) stay mirror images (tables/mirrors.json)", floor=1)
     mirrors.check(r_m, prog, ["dialect::Node::"])
